@@ -589,12 +589,13 @@ def block_diagonalize(
                     "adjoint of entry (i, j) must be entry (j, i)."
                 )
             if any(
-                not any(powers)
+                all(sympy.sympify(power).is_zero is not False for power in powers)
                 for to_eliminate in fully_diagonalize.values()
                 for i in range(to_eliminate.shape[0])
                 for powers in getattr(to_eliminate[i, i], "terms", ())
             ):
-                # A number-conserving term of a diagonal entry couples a level to itself.
+                # A number-conserving term of a diagonal entry couples a level to itself;
+                # so does a term whose symbolic powers may all vanish.
                 raise ValueError(
                     "Full diagonalization must not eliminate matrix elements corresponding"
                     " to equal eigenvalues."
